@@ -338,8 +338,17 @@ func (eng *Engine) genericIntrinsic(fn *ssa.Function) intrinsic {
 // (invalid), otherwise *ReflVal pairs the go/types type with the engine value.
 
 type ReflVal struct {
-	t types.Type
-	v Value
+	t    types.Type
+	v    Value
+	addr *Cell // non-nil when the value is addressable (obtained through a pointer)
+}
+
+// cur is the current value (re-read from memory when addressable).
+func (rv *ReflVal) cur() Value {
+	if rv.addr != nil {
+		return rv.addr.load()
+	}
+	return rv.v
 }
 
 func isReflectValueType(t types.Type) bool {
@@ -383,6 +392,14 @@ func reflectValueIntrinsics() map[string]intrinsic {
 			}
 			return Value{Ref: &ReflVal{t: ifc.t, v: ifc.v}}
 		},
+		"reflect.New": func(it *Interp, fn *ssa.Function, args []Value) Value {
+			t := it.tokenArg(args[0]).t
+			return Value{Ref: &ReflVal{t: types.NewPointer(t), v: Value{Ref: newCell(t, it.epoch)}}}
+		},
+		"reflect.Zero": func(it *Interp, fn *ssa.Function, args []Value) Value {
+			t := it.tokenArg(args[0]).t
+			return Value{Ref: &ReflVal{t: t, v: zeroValue(t)}}
+		},
 		"(reflect.Value).IsValid": func(it *Interp, fn *ssa.Function, args []Value) Value {
 			return Value{Bits: b2u(reflValid(args[0]))}
 		},
@@ -402,37 +419,37 @@ func reflectValueIntrinsics() map[string]intrinsic {
 		"(reflect.Value).Interface": func(it *Interp, fn *ssa.Function, args []Value) Value {
 			rv := it.reflVal(args[0], "Interface")
 			if _, isI := rv.t.Underlying().(*types.Interface); isI {
-				return rv.v
+				return rv.cur()
 			}
-			return Value{Ref: &Iface{t: rv.t, v: rv.v}}
+			return Value{Ref: &Iface{t: rv.t, v: rv.cur()}}
 		},
 		"(reflect.Value).Bool": func(it *Interp, fn *ssa.Function, args []Value) Value {
 			rv := it.reflVal(args[0], "Bool")
 			if reflectKindOf(rv.t) != 1 {
 				it.reflKindPanic("Bool", rv)
 			}
-			return rv.v
+			return rv.cur()
 		},
 		"(reflect.Value).Int": func(it *Interp, fn *ssa.Function, args []Value) Value {
 			rv := it.reflVal(args[0], "Int")
 			if k := reflectKindOf(rv.t); k < 2 || k > 6 {
 				it.reflKindPanic("Int", rv)
 			}
-			return it.convert(rv.v, rv.t, types.Typ[types.Int64])
+			return it.convert(rv.cur(), rv.t, types.Typ[types.Int64])
 		},
 		"(reflect.Value).Uint": func(it *Interp, fn *ssa.Function, args []Value) Value {
 			rv := it.reflVal(args[0], "Uint")
 			if k := reflectKindOf(rv.t); k < 7 || k > 12 {
 				it.reflKindPanic("Uint", rv)
 			}
-			return it.convert(rv.v, rv.t, types.Typ[types.Uint64])
+			return it.convert(rv.cur(), rv.t, types.Typ[types.Uint64])
 		},
 		"(reflect.Value).Float": func(it *Interp, fn *ssa.Function, args []Value) Value {
 			rv := it.reflVal(args[0], "Float")
 			if k := reflectKindOf(rv.t); k != 13 && k != 14 {
 				it.reflKindPanic("Float", rv)
 			}
-			return it.convert(rv.v, rv.t, types.Typ[types.Float64])
+			return it.convert(rv.cur(), rv.t, types.Typ[types.Float64])
 		},
 		"(reflect.Value).String": func(it *Interp, fn *ssa.Function, args []Value) Value {
 			if !reflValid(args[0]) {
@@ -442,11 +459,11 @@ func reflectValueIntrinsics() map[string]intrinsic {
 			if reflectKindOf(rv.t) != 24 {
 				return mkStr("<" + typeStr(rv.t) + " Value>")
 			}
-			return rv.v
+			return rv.cur()
 		},
 		"(reflect.Value).Len": func(it *Interp, fn *ssa.Function, args []Value) Value {
 			rv := it.reflVal(args[0], "Len")
-			switch x := rv.v.Ref.(type) {
+			switch x := rv.cur().Ref.(type) {
 			case *Str:
 				return Value{Bits: uint64(x.Len())}
 			case Slice:
@@ -470,13 +487,13 @@ func reflectValueIntrinsics() map[string]intrinsic {
 			rv := it.reflVal(args[0], "IsNil")
 			switch rv.t.Underlying().(type) {
 			case *types.Pointer, *types.Map, *types.Chan, *types.Signature, *types.Interface:
-				return Value{Bits: b2u(rv.v.Ref == nil)}
+				return Value{Bits: b2u(rv.cur().Ref == nil)}
 			case *types.Slice:
-				s, ok := rv.v.Ref.(Slice)
+				s, ok := rv.cur().Ref.(Slice)
 				return Value{Bits: b2u(!ok || s.c == nil)}
 			case *types.Basic:
 				if reflectKindOf(rv.t) == 26 {
-					return Value{Bits: b2u(rv.v.Ref == nil)}
+					return Value{Bits: b2u(rv.cur().Ref == nil)}
 				}
 			}
 			it.reflKindPanic("IsNil", rv)
@@ -487,19 +504,19 @@ func reflectValueIntrinsics() map[string]intrinsic {
 			i := int(it.concInt(args[1], types.Typ[types.Int]))
 			switch u := rv.t.Underlying().(type) {
 			case *types.Slice:
-				s, _ := rv.v.Ref.(Slice)
+				s, _ := rv.cur().Ref.(Slice)
 				if i < 0 || i >= s.n {
 					it.goPanicValue(mkStrIface(it, "reflect: slice index out of range"))
 				}
 				return Value{Ref: &ReflVal{t: u.Elem(), v: s.c[i].load()}}
 			case *types.Array:
-				a := rv.v.Ref.(*Agg)
+				a := rv.cur().Ref.(*Agg)
 				if i < 0 || i >= len(a.v) {
 					it.goPanicValue(mkStrIface(it, "reflect: array index out of range"))
 				}
 				return Value{Ref: &ReflVal{t: u.Elem(), v: a.v[i]}}
 			case *types.Basic:
-				if s, ok := rv.v.Ref.(*Str); ok {
+				if s, ok := rv.cur().Ref.(*Str); ok {
 					if i < 0 || i >= s.Len() {
 						it.goPanicValue(mkStrIface(it, "reflect: string index out of range"))
 					}
@@ -513,18 +530,97 @@ func reflectValueIntrinsics() map[string]intrinsic {
 			rv := it.reflVal(args[0], "Elem")
 			switch u := rv.t.Underlying().(type) {
 			case *types.Pointer:
-				if rv.v.Ref == nil {
+				if rv.cur().Ref == nil {
 					return Value{}
 				}
-				return Value{Ref: &ReflVal{t: u.Elem(), v: it.load(rv.v)}}
+				c := it.cellOf(rv.cur())
+				return Value{Ref: &ReflVal{t: u.Elem(), addr: c}}
 			case *types.Interface:
-				ifc, _ := rv.v.Ref.(*Iface)
+				ifc, _ := rv.cur().Ref.(*Iface)
 				if ifc == nil {
 					return Value{}
 				}
 				return Value{Ref: &ReflVal{t: ifc.t, v: ifc.v}}
 			}
 			it.reflKindPanic("Elem", rv)
+			return Value{}
+		},
+		"(reflect.Value).CanSet": func(it *Interp, fn *ssa.Function, args []Value) Value {
+			rv := it.reflVal(args[0], "CanSet")
+			return Value{Bits: b2u(rv.addr != nil)}
+		},
+		"(reflect.Value).CanAddr": func(it *Interp, fn *ssa.Function, args []Value) Value {
+			rv := it.reflVal(args[0], "CanAddr")
+			return Value{Bits: b2u(rv.addr != nil)}
+		},
+		"(reflect.Value).Addr": func(it *Interp, fn *ssa.Function, args []Value) Value {
+			rv := it.reflVal(args[0], "Addr")
+			if rv.addr == nil {
+				it.goPanicValue(mkStrIface(it, "reflect.Value.Addr of unaddressable value"))
+			}
+			return Value{Ref: &ReflVal{t: types.NewPointer(rv.t), v: Value{Ref: rv.addr}}}
+		},
+		"(reflect.Value).Set": func(it *Interp, fn *ssa.Function, args []Value) Value {
+			rv := it.reflVal(args[0], "Set")
+			x := it.reflVal(args[1], "Set")
+			if rv.addr == nil {
+				it.goPanicValue(mkStrIface(it, "reflect: reflect.Value.Set using unaddressable value"))
+			}
+			val := x.cur()
+			if _, isI := rv.t.Underlying().(*types.Interface); isI {
+				if _, srcI := x.t.Underlying().(*types.Interface); !srcI {
+					val = Value{Ref: &Iface{t: x.t, v: val}}
+				}
+			}
+			it.store(rv.addr, val)
+			return Value{}
+		},
+		"(reflect.Value).SetInt": func(it *Interp, fn *ssa.Function, args []Value) Value {
+			rv := it.reflVal(args[0], "SetInt")
+			if rv.addr == nil {
+				it.goPanicValue(mkStrIface(it, "reflect: reflect.Value.SetInt using unaddressable value"))
+			}
+			it.store(rv.addr, it.convert(args[1], types.Typ[types.Int64], rv.t))
+			return Value{}
+		},
+		"(reflect.Value).SetUint": func(it *Interp, fn *ssa.Function, args []Value) Value {
+			rv := it.reflVal(args[0], "SetUint")
+			if rv.addr == nil {
+				it.goPanicValue(mkStrIface(it, "reflect: reflect.Value.SetUint using unaddressable value"))
+			}
+			it.store(rv.addr, it.convert(args[1], types.Typ[types.Uint64], rv.t))
+			return Value{}
+		},
+		"(reflect.Value).SetBool": func(it *Interp, fn *ssa.Function, args []Value) Value {
+			rv := it.reflVal(args[0], "SetBool")
+			if rv.addr == nil {
+				it.goPanicValue(mkStrIface(it, "reflect: reflect.Value.SetBool using unaddressable value"))
+			}
+			it.store(rv.addr, args[1])
+			return Value{}
+		},
+		"(reflect.Value).SetFloat": func(it *Interp, fn *ssa.Function, args []Value) Value {
+			rv := it.reflVal(args[0], "SetFloat")
+			if rv.addr == nil {
+				it.goPanicValue(mkStrIface(it, "reflect: reflect.Value.SetFloat using unaddressable value"))
+			}
+			it.store(rv.addr, it.convert(args[1], types.Typ[types.Float64], rv.t))
+			return Value{}
+		},
+		"(reflect.Value).SetString": func(it *Interp, fn *ssa.Function, args []Value) Value {
+			rv := it.reflVal(args[0], "SetString")
+			if rv.addr == nil {
+				it.goPanicValue(mkStrIface(it, "reflect: reflect.Value.SetString using unaddressable value"))
+			}
+			it.store(rv.addr, args[1])
+			return Value{}
+		},
+		"(reflect.Value).IsZero": func(it *Interp, fn *ssa.Function, args []Value) Value {
+			rv := it.reflVal(args[0], "IsZero")
+			return it.equal(rv.t, rv.cur(), zeroValue(rv.t))
+		},
+		"(reflect.Value).Pointer": func(it *Interp, fn *ssa.Function, args []Value) Value {
+			it.unsupported("reflect.Value.Pointer")
 			return Value{}
 		},
 		"(reflect.Value).NumField": func(it *Interp, fn *ssa.Function, args []Value) Value {
@@ -539,7 +635,7 @@ func reflectValueIntrinsics() map[string]intrinsic {
 			rv := it.reflVal(args[0], "Field")
 			i := int(it.concInt(args[1], types.Typ[types.Int]))
 			if st, ok := rv.t.Underlying().(*types.Struct); ok {
-				a := rv.v.Ref.(*Agg)
+				a := rv.cur().Ref.(*Agg)
 				if i < 0 || i >= len(a.v) {
 					it.goPanicValue(mkStrIface(it, "reflect: Field index out of range"))
 				}
